@@ -422,6 +422,9 @@ func ruleDedupeKeepsOne(r *core.Reporter) {
 	p := r.P
 	fn := p.Func(rel(pkgModels), "(*Item).DedupeItems")
 	ft := p.Func(rel(pkgModels), "flattenTree")
+	if fn != nil && ft == nil {
+		ft = fn // flattenTree folded into DedupeItems (as a local recursive closure): the traversal is looked for there
+	}
 	if fn == nil || ft == nil {
 		r.Undecided("models.DedupeItems", "", "anchor not found")
 		return
